@@ -904,3 +904,6 @@ def run(chk, args):
     if only is None or "clientmain" in only:
         from checks import c15_clientmain
         c15_clientmain.run_clientmain_part(chk, args)
+
+
+MANIFEST["note"] += ' Extension parts run with the check: EventBus (--only eventbus), NatDiscovery (--only natdisc) and ClientMain (spec/ClientMain: SOCKS accept loop, per-connection configuration from SOCKS arguments over flags, copy loop and shutdown of the client binary, --only clientmain).'
